@@ -7,7 +7,8 @@
 (*   - on every single value (unary and dataset-scalar operators),         *)
 (*   - over EVERY multiset of one to three values (aggregation: one group   *)
 (*     per multiset),                                                      *)
-(*   - through a nested expression, a clause, a set operator and a join.   *)
+(*   - through a nested expression, a clause, a set operator, a join and a  *)
+(*     dataset-level analytic invocation (whole partition).                *)
 (* Values: A, B, C, null for enumerated rules; 1, 5, -2, null for          *)
 (* aggregate rules.                                                        *)
 (***************************************************************************)
@@ -59,6 +60,10 @@ PairTerms == { BinT("+", V("DS_1"), V("DS_2")), UnT("abs", V("DS_1")), BinT("*",
                V("DS_1") }
 GroupTerms == { Agg("sum", V("DS_1"), "by", <<"Id_1">>), Agg("count", V("DS_1"), "except", <<"Id_2">>), Agg("max", V("DS_1"), "none", <<>>),
                 UnT("abs", Agg("min", V("DS_1"), "by", <<"Id_1">>)),
+                [k |-> "an", op |-> "sum", x |-> V("DS_1"), part |-> <<"Id_1">>, order |-> <<<<"Id_2", "asc">>>>,
+                 frame |-> <<[kind |-> "rows", lo |-> [n |-> -1, d |-> "preceding"], hi |-> [n |-> 0, d |-> "current"]]>>, params |-> <<>>],
+                [k |-> "an", op |-> "first_value", x |-> V("DS_1"), part |-> <<"Id_1">>, order |-> <<<<"Id_2", "desc">>>>,
+                 frame |-> <<[kind |-> "rows", lo |-> [n |-> 1, d |-> "preceding"], hi |-> [n |-> 0, d |-> "current"]]>>, params |-> <<>>],
                 [k |-> "clause", op |-> "aggr", ds |-> V("DS_1"), items |-> <<[name |-> "Me_9", role |-> "M", agg |-> [k |-> "agg", op |-> "sum", x |-> V("Me_1")]]>>,
                  mode |-> "by", group |-> <<"Id_1">>, having |-> <<>>] }
 RuleSets == { [kindOf |-> "enum", rule |-> r] : r \in EnumRules } \cup { [kindOf |-> "agg", rule |-> r] : r \in AggRules }
